@@ -1,7 +1,9 @@
 """C15 — replace_table equals building the same object with the other table.
 Model: coq/Replace.v (subst = specification, rep = traversal driven by the extracted `visited` table), coq/ReplaceCorr.v,
 lemmas/Replace*.v; table regenerated into coq/gen/C15Table.v by harness/c15/extract.py on every run."""
+import glob
 import json
+import os
 
 from harness import terms_family as tf
 from harness.lib import S, L, P, B as Bc
@@ -19,7 +21,7 @@ GEN_FILES = ["gen/C15Table.v"]
 DEPENDS_ON_EXTRACT = ["C02"]
 SHARD = 120
 RULE = ("(1) systematic: table A in every child slot of every modelled constructor (singles) and slot-inside-slot pairs "
-        "(260 sampled pairs quick, all pairs thorough); (2) typed random terms (depth<=4 quick, <=6 thorough) whose fields "
+        "(400 sampled pairs quick, all pairs thorough); (2) typed random terms (depth<=4 quick, <=6 thorough) whose fields "
         "sit on A, on near-misses of A (same name, other schema/alias), on other tables or on none; aggregate FILTER, "
         "analytic OVER, EXTRACT, PERIOD, nested criteria and sub-queries as root wrappers (modelled) or below the root "
         "(oracle only); (3) statements built by the public builder calls: select/insert/insert-select/update, joins "
@@ -58,12 +60,24 @@ def gen_cases(rng, tier):
     out += g15.systematic(rng, tier)
     out += g15.stmt_slot_cases(rng)
     out += g15.extras_cases(rng)
-    out += g15.term_cases(rng, 260 if quick else 4000, [1, 2, 3, 3, 4] if quick else [2, 3, 4, 5, 6])
-    out += g15.stmt_cases(rng, 220 if quick else 3000, [1, 2, 2, 3] if quick else [2, 3, 4])
+    out += g15.term_cases(rng, 450 if quick else 4000, [1, 2, 3, 3, 4] if quick else [2, 3, 4, 5, 6])
+    out += g15.stmt_cases(rng, 350 if quick else 3000, [1, 2, 2, 3] if quick else [2, 3, 4])
     return out
 
 
+CORPUS_DIR = os.path.join(os.path.dirname(os.path.dirname(os.path.dirname(os.path.abspath(__file__)))), "corpus", "C15")
+
+
 def corpus():
+    """built-in witnesses (one per known finding + shapes that must stay right) + any minimised failures dropped into
+    corpus/C15/extra_*.json (a JSON list of cases each)"""
+    out = _builtin_corpus()
+    for p in sorted(glob.glob(os.path.join(CORPUS_DIR, "extra_*.json"))):
+        out += json.load(open(p))
+    return out
+
+
+def _builtin_corpus():
     A, B, C = ["a", [], None], ["b", [], None], ["c", [], None]
     fa = lambda n: ["field", n, list(A), None]       # noqa: E731
     fc = ["field", "n", list(C), None]
